@@ -35,10 +35,7 @@ impl Compiler {
                 || Self::is_builtin(name)
                 || self.known_globals.contains(name)
             {
-                let idx = self.next_global_index;
-                self.global_indices.insert(actual_name.clone(), idx);
-                self.next_global_index += 1;
-                idx
+                self.alloc_global_index(&actual_name)?
             } else {
                 let hint = self.generate_undefined_variable_hint(name);
                 let error_msg = if let Some(hint_msg) = hint {
